@@ -48,6 +48,10 @@ class T:
     on = False
     own_defs: dict = {}
     problems: list = []
+    # return scopes: [returned?, loop depth inside the scope]; a new scope per
+    # script and per CALL / EVAL activation (IF / TRY bodies are transparent)
+    scopes: list = []
+    flag_op = False
 
 
 def install_tracer():
@@ -55,13 +59,56 @@ def install_tracer():
     saved = (dict(functions.opcodes), dict(functions.nopcodes),
              functions.run_tape)
 
+    def note(name):
+        """own-explicit-return monitor: once a script (or a called function /
+        an evaluated script) has executed RETURN, no further instruction of
+        that same scope is dispatched. RETURN inside a LOOP body is left out
+        (the documents do not say whether LOOP is transparent to it), and so
+        is any run that touched the flag instructions."""
+        if not T.scopes:
+            return
+        sc = T.scopes[-1]
+        if sc[0] and not T.flag_op and len(T.problems) < 5:
+            T.problems.append(
+                f'script #{T.script}: {name} dispatched after the same '
+                'script / function had executed its own RETURN')
+        if name == 'OP_RETURN' and sc[1] == 0:
+            sc[0] = True
+        elif name in ('OP_SET_FLAG', 'OP_UNSET_FLAG'):
+            T.flag_op = True
+
+    def scoped(fn, kind):
+        def op(tape, stack, cache):
+            if kind == 'loop':
+                if T.scopes:
+                    T.scopes[-1][1] += 1
+                try:
+                    return fn(tape, stack, cache)
+                finally:
+                    if T.scopes:
+                        T.scopes[-1][1] -= 1
+            T.scopes.append([False, 0])
+            try:
+                return fn(tape, stack, cache)
+            finally:
+                T.scopes.pop()
+        op.__wrapped__ = fn
+        return op
+
     def wrap(name, fn):
+        if name in ('OP_CALL', 'OP_EVAL'):
+            fn = scoped(fn, 'scope')
+        elif name == 'OP_LOOP':
+            fn = scoped(fn, 'loop')
+
         def traced(tape, stack, cache):
             T.events.append((T.script, T.depth, tape.pointer - 1, name))
+            note(name)
             fn(tape, stack, cache)
         if name == 'OP_DEF':
             def traced(tape, stack, cache):        # noqa: F811
                 T.events.append((T.script, T.depth, tape.pointer - 1, name))
+                note(name)
                 p, d = tape.pointer, tape.data
                 if p + 3 <= len(d):
                     size = int.from_bytes(d[p + 1:p + 3], 'big')
@@ -73,6 +120,7 @@ def install_tracer():
         elif name == 'OP_CALL':
             def traced(tape, stack, cache):        # noqa: F811
                 T.events.append((T.script, T.depth, tape.pointer - 1, name))
+                note(name)
                 h = tape.data[tape.pointer:tape.pointer + 1]
                 own = T.own_defs.get((id(tape), h))
                 callee = tape.definitions.get(h)
@@ -89,11 +137,16 @@ def install_tracer():
         for c, (name, fn) in list(table.items()):
             table[c] = (name, wrap(name, fn))
     orig = functions.run_tape
+    # MERKLEVAL / TAPROOT call the module-level OP_EVAL directly
+    saved_eval = functions.OP_EVAL
+    functions.OP_EVAL = scoped(saved_eval, 'scope')
+    saved = saved + (saved_eval,)
 
     def run_tape(tape, stack, cache, additional_flags={}):
         if T.depth == 0:
             T.script += 1
             T.tops.append(tape)
+            T.scopes = [[False, 0]]
         T.depth += 1
         try:
             return orig(tape, stack, cache, additional_flags)
@@ -110,6 +163,7 @@ def remove_tracer(saved):
     functions.nopcodes.clear()
     functions.nopcodes.update(saved[1])
     functions.run_tape = saved[2]
+    functions.OP_EVAL = saved[3]
 
 
 def reset_trace():
@@ -119,6 +173,8 @@ def reset_trace():
     T.tops = []
     T.own_defs = {}
     T.problems = []
+    T.scopes = []
+    T.flag_op = False
 
 
 def real(case):
@@ -339,10 +395,14 @@ def judge_traced(ctx, case, verdict, exc):
     ctx.tab('tag', case['tag'].split(':')[0])
     ctx.tab('verdict', f'real={verdict} oracle={want}')
     if def_problems:
-        ctx.violation('call-runs-foreign-definition', 'a function a script '
-                      'defined itself was not the one its CALL executed '
-                      '(instructions of the script skipped): '
-                      + def_problems[0], case)
+        if 'own RETURN' in def_problems[0]:
+            ctx.violation('runs-past-own-return', 'a script went on after its '
+                          'own explicit return: ' + def_problems[0], case)
+        else:
+            ctx.violation('call-runs-foreign-definition', 'a function a '
+                          'script defined itself was not the one its CALL '
+                          'executed (instructions of the script skipped): '
+                          + def_problems[0], case)
         return
     stack_problems = [p for p in mon.problems if p[0].startswith('stack-')]
     if stack_problems:
